@@ -77,6 +77,17 @@ def main():
                          or l.startswith("UNDECIDED") or l.startswith("OK ")]
                 rec["checks"][p] = {"rc": rcc, "seconds": round(time.time() - t0), "lines": lines[:12]}
         dst = os.path.join(VERIF, "seeded", sid)
+        # keep the verdicts of earlier evaluations (before checks were strengthened) as history
+        hist = []
+        try:
+            oldm = json.load(open(os.path.join(dst, "meta.json")))
+            hist = oldm.get("history", [])
+            oe = oldm.get("evaluation")
+            if oe:
+                hist.append({"when": oe.get("when"), "checks": {k: v.get("rc") for k, v in oe.get("checks", {}).items()}})
+        except (OSError, ValueError):
+            pass
+        meta["history"] = hist
         shutil.rmtree(dst, ignore_errors=True)
         shutil.copytree(seed, dst)
         meta["evaluation"] = rec
